@@ -64,6 +64,10 @@ type invocation struct {
 	inProgress  bool
 	timerCancel context.CancelFunc
 	options     wamp.Dict
+	// Registration the call was routed under, kept for the later CALLs of a
+	// progressive call.
+	regID          wamp.ID
+	forwardTimeout bool
 }
 
 type requestID struct {
@@ -662,8 +666,18 @@ func (d *dealer) syncMatchProcedure(procedure wamp.URI) (*registration, bool) {
 }
 
 func (d *dealer) syncCall(caller *wamp.Session, msg *wamp.Call) {
+	callReqID := requestID{
+		session: caller.ID,
+		request: msg.Request,
+	}
+
+	// A CALL that continues a progressive call is routed to the callee, and
+	// under the registration, that got the first CALL. The registration may
+	// have been removed since, or a different one may match by now.
+	storedInvocationID, ongoing := d.invocationByCall[callReqID]
+
 	reg, ok := d.syncMatchProcedure(msg.Procedure)
-	if !ok || len(reg.callees) == 0 {
+	if !ongoing && (!ok || len(reg.callees) == 0) {
 		// If no registered procedure, send error.
 		d.trySend(caller, &wamp.Error{
 			Type:    msg.MessageType(),
@@ -679,12 +693,7 @@ func (d *dealer) syncCall(caller *wamp.Session, msg *wamp.Call) {
 	var invk *invocation
 	var timeout int64
 
-	callReqID := requestID{
-		session: caller.ID,
-		request: msg.Request,
-	}
-
-	storedInvocationID, ok := d.invocationByCall[callReqID]
+	ok = ongoing
 	isInProgress, _ := msg.Options[wamp.OptProgress].(bool)
 	details := wamp.Dict{}
 	details[wamp.OptProgress] = isInProgress
@@ -736,10 +745,12 @@ func (d *dealer) syncCall(caller *wamp.Session, msg *wamp.Call) {
 		}
 		d.calls[reqID] = caller
 		invk = &invocation{
-			callID:     reqID,
-			callee:     callee,
-			inProgress: isInProgress,
-			options:    msg.Options,
+			callID:         reqID,
+			callee:         callee,
+			inProgress:     isInProgress,
+			options:        msg.Options,
+			regID:          reg.id,
+			forwardTimeout: reg.forwardTimeout,
 		}
 
 		// Let's check if callee supports this feature. A Callee that supports
@@ -877,7 +888,7 @@ func (d *dealer) syncCall(caller *wamp.Session, msg *wamp.Call) {
 		// Check that callee supports call_timeout and requested
 		// forward_timeout - if YES then propagate timeout value and handling
 		// to the callee side
-		if callee.HasFeature(wamp.RoleCallee, wamp.FeatureCallTimeout) && reg.forwardTimeout {
+		if callee.HasFeature(wamp.RoleCallee, wamp.FeatureCallTimeout) && invk.forwardTimeout {
 			if !ok { // Propagate the option only during first progressive call.
 				details[wamp.OptTimeout] = callerTimeout
 			}
@@ -891,7 +902,7 @@ func (d *dealer) syncCall(caller *wamp.Session, msg *wamp.Call) {
 	// procedure.
 	invMsg := &wamp.Invocation{
 		Request:      invocationID,
-		Registration: reg.id,
+		Registration: invk.regID,
 		Details:      details,
 		Arguments:    msg.Arguments,
 		ArgumentsKw:  msg.ArgumentsKw,
